@@ -350,7 +350,49 @@ class Gen:
             n = "u%d" % self.counter
             self.generic_defs.append(trule(n, T(arr([ent(T(ref("int"))), ent(T(ref("tstr")), 0, 1)]))))
             return arr([ent(T({"k": "unwrap", "n": n, "args": []})), ent(T(ref("bool")), 0, -1)])
+        if x < 0.95:
+            return self.catplus_t1()
         return ctl("default", ref(r.choice(["int", "tstr"])), lit(C.mk_int(1)))
+
+    def catplus_t1(self):
+        """RFC 9165 .cat / .plus on single-valued operands (literals, aliases of literals, parenthesised literals)"""
+        r = self.rnd
+
+        def operand(v):
+            y = r.random()
+            if y < 0.25 and self.can_ref():
+                self.counter += 1
+                n = "c%d" % self.counter
+                self.generic_defs.append(trule(n, T(lit(v))))
+                return ref(n)
+            if y < 0.35:
+                return paren(T(lit(v)))
+            return lit(v)
+        if r.random() < 0.5:
+            a = C.mk_text(r.choice(["", "a", "ab", "\u00e9", "x y"]))
+            b = C.mk_text(r.choice(["", "b", "cd", "\u65e5", "\n"]))
+            return ctl("cat", operand(a), operand(b))
+        a = C.mk_int(r.choice([0, 1, 2, 5, 255, -1, -3, 1000]))
+        b = C.mk_int(r.choice([0, 1, 3, 256, -1, -2, -7, 65536]))
+        return ctl("plus", operand(a), operand(b))
+
+    REGEXPS = [("[a-z]+", ["a", "abc", "", "A", "a1", "ab c"]), ("[0-9]{2,3}", ["12", "123", "1", "1234", "ab"]), ("a|bc", ["a", "bc", "ab", "abc", ""]),
+               ("x.*", ["x", "xyz", "ax", "", "x\n"]), ("\\\\d+", ["7", "42", "", "d", "4a"]), ("(ab)*c?", ["", "ab", "ababc", "abab", "ac", "b"]),
+               ("[^ ]+@[a-z]+", ["a@b", "@b", "a b@c", "a@", "\u00e9@z"])]
+
+    def sharedx_t1(self):
+        """shared constructs that have no clause in CddlSem (C04 relation only: the two validators must agree)"""
+        r = self.rnd
+        x = r.random()
+        if x < 0.55:
+            rx, _ = r.choice(self.REGEXPS)
+            return ctl("regexp", ref(r.choice(["tstr", "text"])), lit(C.mk_text(rx)))
+        if x < 0.8:
+            a = r.choice([lit(C.mk_float(1.5)), lit(C.mk_int(2)), lit(C.mk_int(-1)), lit(C.mk_float(-0.5))])
+            b = r.choice([lit(C.mk_float(0.5)), lit(C.mk_int(1)), lit(C.mk_int(-3)), lit(C.mk_float(2.25))])
+            return ctl("plus", a, b)
+        a = C.mk_text(r.choice(["", "a", "\u00e9"]))
+        return ctl("cat", lit(a), paren(T(ctl("cat", lit(C.mk_text(r.choice(["b", ""]))), lit(C.mk_text(r.choice(["c", "d d"])))))))
 
     def cbor_t1(self, d):
         """CBOR-only constructs (profile 'cborx'): tagged types, major types, non-text map keys, big numbers"""
@@ -397,7 +439,9 @@ class Gen:
         x = r.random()
         if self.profile == "cborx" and self.fmt == "cbor" and r.random() < 0.3:
             return self.cbor_t1(d)
-        if self.profile == "shared" and r.random() < 0.18:
+        if self.profile == "sharedx" and r.random() < 0.1:
+            return self.sharedx_t1()
+        if self.profile in ("shared", "sharedx") and r.random() < 0.18:
             return self.ext_t1(d)
         if d <= 0 or x < 0.35:
             return self.scalar_t1()
@@ -622,6 +666,40 @@ class Inst:
                 if tn in ("bstr", "bytes"):
                     return C.mk_bytes(b"x" * r.choice([n, n + 1, max(0, n - 1)]))
                 return C.mk_int(r.choice([0, 1, 255, 256, 65535, 65536, 2**24, 2**32 - 1, 2**32, 256 ** n - 1 if n < 9 else 2**64 - 1, 256 ** n if n < 8 else 2**64 - 1, 2**64 - 1, 2**64 - 2, 2**56]))
+            if op == "regexp" and a is not None and a["k"] == "text":
+                for rx, insts in Gen.REGEXPS:
+                    if rx == C.text_val(a):
+                        return C.mk_text(r.choice(insts))
+                return C.mk_text("a")
+            if op == "plus" and t["t"]["k"] == "lit" and t["arg"]["k"] == "lit" and "float" in (t["t"]["v"]["k"], t["arg"]["v"]["k"]):
+                num = lambda v: C.int_val(v) if v["k"] == "int" else C.float_val(v)
+                x, y = num(t["t"]["v"]), num(t["arg"]["v"])
+                c = [x + y, x, y, int(x) + int(y), int(x + y), x + int(y)]
+                z = r.choice(c)
+                return C.mk_float(float(z)) if r.random() < 0.5 or z != int(z) else C.mk_int(int(z))
+            if op == "cat" and t["arg"]["k"] == "paren":
+                return C.mk_text(r.choice(["abc", "ac", "bc", "ad d", "\u00e9bc", "\u00e9c", "bd d", "a", "c"]))
+            if op in ("cat", "plus"):
+                def single(x, fuel=4):
+                    while fuel > 0 and x is not None and x["k"] != "lit":
+                        fuel -= 1
+                        if x["k"] == "paren" and len(x["t"]["alts"]) == 1:
+                            x = x["t"]["alts"][0]
+                        elif x["k"] == "ref" and self.rule(x["n"]) is not None and len(self.rule(x["n"])["t"]["alts"]) == 1:
+                            x = self.rule(x["n"])["t"]["alts"][0]
+                        else:
+                            x = None
+                    return x["v"] if x is not None and x["k"] == "lit" else None
+                la, lb = single(t["t"]), single(t["arg"])
+                if la is None or lb is None:
+                    return self.junk()
+                if op == "cat" and la["k"] == "text" and lb["k"] == "text":
+                    sa, sb = C.text_val(la), C.text_val(lb)
+                    return C.mk_text(r.choice([sa + sb, sa + sb, sa + sb, sa, sb, sb + sa, sa + sb + "x", sa + " " + sb]))
+                if op == "plus" and la["k"] == "int" and lb["k"] == "int":
+                    x, y = C.int_val(la), C.int_val(lb)
+                    return C.mk_int(clamp(r.choice([x + y, x + y, x + y, x, y, x - y, x + y + 1, x + y - 1, abs(x + y), -(x + y)]), self.fmt))
+                return self.junk()
             if op in ("lt", "le", "gt", "ge", "eq", "ne") and a is not None:
                 if a["k"] == "int":
                     n = C.int_val(a)
